@@ -318,7 +318,7 @@ func init() {
 		if v, ok := w.ext["subnetloads"]; ok {
 			loads = v.([]bool)
 		}
-		failed := w.decideBool(w.freshND("subnet-file-unreadable", "bool", 0), "subnet file load")
+		failed := w.decideBool(w.freshND("subnet-file-unreadable", "env-bool", 0), "subnet file load")
 		w.ext["subnetloads"] = append(loads[:len(loads):len(loads)], failed)
 		if failed {
 			return Tuple{(*Value)(nil), w.mkError("error opening configuration file")}
@@ -349,7 +349,7 @@ func init() {
 		return out
 	})
 	reg("github.com/oschwald/geoip2-golang.Open", func(w *World, t *Thread, fr *frame, fn *ssa.Function, args []Value) Value {
-		if w.decideBool(w.freshND("geoip-db-unreadable", "bool", 0), "geoip db") {
+		if w.decideBool(w.freshND("geoip-db-unreadable", "env-bool", 0), "geoip db") {
 			return Tuple{(*Value)(nil), w.mkError("open geoip database: no such file or directory")}
 		}
 		cell := new(Value)
